@@ -29,7 +29,10 @@ def run(rep):
     for k in range(n):
         ct, depth = pg.LEGAL[k % 15]
         w, h = imggen.pick_dims(rng)
-        tok, _ = imggen.gen(rng, ct, depth, w, h, False, rng.choice(imggen.CLASSES), rng.choice(["none", "used", "unused"]))
+        cls = rng.choice(imggen.CLASSES)
+        if ct in (4, 6) and k % 4 == 1:
+            cls = "nearalpha"        # alpha one byte away from opaque / transparent (0xFFxx, 0x00xx, 254, 1)
+        tok, _ = imggen.gen(rng, ct, depth, w, h, False, cls, rng.choice(["none", "used", "unused"]))
         w_, h_, ct_, d_, il_, extra, data = pg.parse_img_token(tok)
         bad = None
         r = rng.random()
